@@ -1,0 +1,78 @@
+//go:build verif
+
+package evm
+
+// Contracts for the deductive checker in /verif (comment-only; compiled only with -tags verif).
+// C08, the eth-route guard: the values of the Ethereum messages of one transaction, summed per sender, stay within what a
+// clawback vesting sender can spend (balance - LockedCoins(block time) of the EVM denom).
+// Lib specs: /verif/specs/c08g/60_guards.spec; account-level functions (ValidCVA, VestedAt, UnlockedAt): x/vesting/types.
+
+/*@
+alias CVA github.com/haqq-network/haqq/x/vesting/types.ClawbackVestingAccount
+alias AccountKeeperI github.com/haqq-network/haqq/x/evm/types.AccountKeeper
+
+func (EVMKeeper).GetParams
+    params ek, ctx
+    pure as evmk_params
+
+// m is an Ethereum transaction message (dynamic type *evmtypes.MsgEthereumTx); the message object
+specfunc IsEthM(m int) bool = m != nil && typeof(m) == typetag("*github.com/haqq-network/haqq/x/evm/types.MsgEthereumTx")
+// sender account / value of an Ethereum message object, fixed for the duration of the handler (see `stable`)
+uf vmsg_sender(m int) Addr
+uf vmsg_val(m int) int
+
+// running totals: value sent per sender account by the first i messages
+sort AddrInt = (Array Addr Int)
+specfunc ai_zero() AddrInt = smt "((as const (Array Addr Int)) 0)"
+ghost func Tot(msgs Msgs, i int) AddrInt
+    def ite(i <= 0, ai_zero(), ite(IsEthM(msgs[i-1]),
+            upd(Tot(msgs, i-1), vmsg_sender(msgs[i-1]), Tot(msgs, i-1)[vmsg_sender(msgs[i-1])] + vmsg_val(msgs[i-1])),
+            Tot(msgs, i-1)))
+
+// the property's locked amount: max(original - unlockedVested - trackedDelegated, unvested)
+specfunc LockedAt(va CVA, t int) Coins = cmax(csub(csub(va.OriginalVesting, cmin(UnlockedAt(va, t), VestedAt(va, t))), cadd(va.DelegatedFree, va.DelegatedVesting)),
+                                              csub(va.OriginalVesting, VestedAt(va, t)))
+// what the account can spend of denom d at time t with balance bal
+specfunc SpendableOf(bal int, va CVA, t int, d string) int = imax(0, bal - LockedAt(va, t)[d])
+
+func (EthVestingTransactionDecorator).updateAccountExpenses
+    inline
+
+// C08: `next` runs only if every message is an Ethereum tx and, for every clawback vesting account, the values of all its
+// messages in this transaction sum to at most max(0, balance - LockedCoins(block time)[evm denom]).
+func (EthVestingTransactionDecorator).AnteHandle
+    let msgs = tx_msgs(tx)
+    let n = len(tx_msgs(tx))
+    let d = evmk_params(vtd.ek, ctx).EvmDenom
+    let t = time_unix(ctx_blocktime(ctx))
+    let m = accountExpenses
+    requires keepers: vtd.ak != nil && vtd.bk != nil && vtd.ek != nil && tx != nil
+    // messages come from the tx decoder, passed ValidateBasic (tx data unpacks) and are not mutated while this handler runs
+    requires stable: forall k int :: 0 <= k && k < n && IsEthM(msgs[k]) ==> unbox(msgs[k], "*github.com/haqq-network/haqq/x/evm/types.MsgEthereumTx") != nil
+            && ethfrom_of(unbox(msgs[k], "*github.com/haqq-network/haqq/x/evm/types.MsgEthereumTx").From) == vmsg_sender(msgs[k])
+            && ethmsg_astx(*unbox(msgs[k], "*github.com/haqq-network/haqq/x/evm/types.MsgEthereumTx")) != nil
+            && tx_value_v(ethmsg_astx(*unbox(msgs[k], "*github.com/haqq-network/haqq/x/evm/types.MsgEthereumTx"))) == vmsg_val(msgs[k])
+    modifies bank_bal, bank_supply, auth_accs   // only through `next`, which is unknown code
+    allow frame
+    call next requires alleth: forall k int :: 0 <= k && k < n ==> IsEthM(msgs[k])
+    call next requires spendable: forall a Addr :: isdyn(evm_account(vtd.ak, ctx, a), *CVA)
+            ==> Tot(msgs, n)[a] <= SpendableOf(bank_bal[a][d], *dyn(evm_account(vtd.ak, ctx, a), *CVA), t, d)
+    call next requires same: tx == old(tx) && ctx == old(ctx) && simulate == old(simulate)
+            && bank_bal == old(bank_bal) && auth_accs == old(auth_accs) && bank_supply == old(bank_supply)
+    ensures rejected: !(forall a Addr :: old(isdyn(evm_account(vtd.ak, ctx, a), *CVA)
+            ==> Tot(msgs, n)[a] <= SpendableOf(bank_bal[a][d], *dyn(evm_account(vtd.ak, ctx, a), *CVA), t, d)))
+            ==> err != nil && newCtx == ctx && bank_bal == old(bank_bal) && auth_accs == old(auth_accs)
+    loop 1 invariant idx: 0 <= #i && #i <= n
+    loop 1 invariant frame: tx == old(tx) && ctx == old(ctx) && simulate == old(simulate) && vtd == old(vtd) && denom == d
+    loop 1 invariant alleth: forall k int :: 0 <= k && k < #i ==> IsEthM(msgs[k])
+    loop 1 invariant keys: forall s string :: has(m, s) ==> addr_string(addr_of_bech32(s)) == s
+            && isdyn(evm_account(vtd.ak, ctx, addr_of_bech32(s)), *CVA)
+    loop 1 invariant ptrs: forall s string :: has(m, s) ==> m[s] != nil && m[s] < $alloc
+            && m[s].total != nil && m[s].total < $alloc && m[s].spendable != nil && m[s].spendable < $alloc
+    loop 1 invariant sep: forall s1 string, s2 string :: has(m, s1) && has(m, s2) ==> m[s1].total != m[s2].spendable
+            && (s1 != s2 ==> m[s1] != m[s2] && m[s1].total != m[s2].total)
+    loop 1 invariant totals: forall s string :: has(m, s) ==> *m[s].total == Tot(msgs, #i)[addr_of_bech32(s)]
+            && *m[s].spendable == SpendableOf(bank_bal[addr_of_bech32(s)][d], *dyn(evm_account(vtd.ak, ctx, addr_of_bech32(s)), *CVA), t, d)
+            && *m[s].total <= *m[s].spendable
+    loop 1 invariant absent: forall a Addr :: isdyn(evm_account(vtd.ak, ctx, a), *CVA) && !has(m, addr_string(a)) ==> Tot(msgs, #i)[a] == 0
+@*/
